@@ -265,6 +265,10 @@ func genScenario(p Profile, rs uint64, tier string) (*Scenario, *ExploreCfg) {
 	case "model":
 		sc.Knobs.RealSQL = false
 	}
+	if sc.Params["force_real_sql"] == "1" && os.Getenv("VERIF_SQL") != "model" {
+		// a profile whose subject is code above the SQL that only runs in this mode
+		sc.Knobs.RealSQL = true
+	}
 	if sc.Worker != nil {
 		// the replication world: in the real-SQL runs the writers' data statements, the pipelines' log reads
 		// (real storage driver + Logs().Paginate) run for real; the system store independently in half
